@@ -50,6 +50,7 @@ def run(ctx):
         finality = None
     if finality is not None:
         finality.check(ctx)
+        finality.scp_check(ctx)
     tables_stable(ctx)
 
 
@@ -110,6 +111,20 @@ def replay(ctx, case):
         print(c[1], hex(c[2]), st.code_to_category(c[2]), "-> continued" if cont else "-> stopped", out["yields"])
         final = not (c[1] == "findrq" and c[2] == 0xB001) and st.code_to_category(c[2]) != "Pending"
         return 0 if cont is not None and (not cont) == final else 1
+    if c[0] == "scp-final":
+        from harness import scp_driver as sd
+
+        svc = sd.services()[c[1]]
+        ds = ["ds", 1, False, None, True, True]
+        tab = sd.run_scp(svc, ["gen", ["y", ["p", ["i", 0], None, "su"], 0]])["table"]
+        out = {}
+        for code in sorted(k for k in getattr(st, tab) if isinstance(k, int)):
+            cat = sd.table_cat(tab, code)
+            r = sd.run_scp(svc, ["gen", ["y", ["p", ["i", code], ds if cat == "Pending" else None, "su"], 0], ["y", ["p", ["i", 0xFF00], ds, "su"], 0]])
+            sts = [x["status"] for x in r["raw"]]
+            out.setdefault(cat, {}).setdefault(len(sts) >= 2 and sts[1] == 0xFF00, []).append(hex(code))
+        print(c[1], {k: {("goes on" if g else "ends"): v for g, v in d.items()} for k, d in out.items()})
+        return 1 if any(len(d) > 1 for d in out.values()) else 0
     if c[0] == "status":
         print("code_to_category", hex(c[1]), "=", st.code_to_category(c[1]))
     else:
